@@ -263,6 +263,13 @@ func checkC12(c *hx.Checker) {
 				tp.RawData, tp.FloatData, tp.DoubleData, tp.Int32Data, tp.Int64Data, tp.Uint64Data = nil, nil, nil, nil, nil, nil
 				add(tp, "error", nil, fmt.Sprintf("%s/%s/%v/no-payload", dt, enc, sh), append(base, "fault=no-payload", "payload-count-mismatch")...)
 			}
+			// zero extents with an (accordingly) empty payload: an empty tensor cannot be represented and must be refused
+			for _, dims := range [][]int64{{0}, {2, 0}, {0, 3}, {0, 0}, {1, 0, 2}} {
+				tp := hx.TensorProto("", patternFill(dt, []int{1}, 1), enc)
+				tp.Dims = dims
+				tp.RawData, tp.FloatData, tp.DoubleData, tp.Int32Data, tp.Int64Data, tp.Uint64Data = nil, nil, nil, nil, nil, nil
+				add(tp, "error", nil, fmt.Sprintf("%s/%s/zero-dims%v-empty-payload", dt, enc, dims), append(base, "fault=zero-dims-empty-payload")...)
+			}
 			// bad dims with a consistent-looking payload
 			// (among them products that wrap around to the payload's 4 elements in 64 or 32 bit arithmetic)
 			for _, dims := range [][]int64{{-1}, {2, -2}, {0}, {2, 0}, {1 << 31}, {1 << 40, 1 << 40}, {4, 1<<62 + 1}, {1<<62 + 1, 4}, {2, 2, 1<<62 + 1}, {1 << 32, 1 << 32, 4}, {-2, -2}, {-4, -1}, {-1, -1, 4},
